@@ -118,11 +118,75 @@ class Program:
                     self.alpha_renamed += alpha.normalise(mine, self._alpha_ref, tree)
                 if not os.environ.get("NGOSA_NO_NFORM"):
                     nform.sort_operands(tree)
+        self.positionalised = 0
+        if not os.environ.get("NGOSA_NO_NFORM"):
+            self.positionalised = self._positionalise_calls()
         self.inlined_calls = 0
         if not os.environ.get("NGOSA_NO_INLINE") and not os.environ.get("NGOSA_NO_ALPHA"):
             from . import inliner
 
             self.inlined_calls = inliner.inline_new_helpers(self)
+
+    def _signature(self, res: str) -> Optional[list[str]]:
+        """positional parameter names of a resolved callee (ngo function / class / clingo.ast constructor), None if unknown"""
+        if res.startswith("clingo.ast."):
+            from .grammar import schema
+
+            kind = res.split(".")[-1]
+            sch = schema()
+            return list(sch.kinds[kind].keys()) if kind in sch.kinds else None
+        target = self.funcs.get(res)
+        skip_self = False
+        if target is None and res in self.classes:
+            target = self.funcs.get(f"{res}.__init__")
+            skip_self = True
+            if target is None:
+                # dataclass / NamedTuple: the annotated class attributes in order
+                cls = self.classes[res].node
+                fields = [s.target.id for s in cls.body if isinstance(s, ast.AnnAssign) and isinstance(s.target, ast.Name)]
+                return fields or None
+        if target is None or isinstance(target.node, ast.Lambda):
+            return None
+        a = target.node.args  # type: ignore[attr-defined]
+        if a.vararg or a.kwarg:
+            return None
+        params = [x.arg for x in a.posonlyargs + a.args]
+        decos = [ast.unparse(d) for d in target.node.decorator_list]  # type: ignore[attr-defined]
+        if skip_self or (params and params[0] in ("self", "cls") and "staticmethod" not in decos and self.class_of_func(target) is not None):
+            params = params[1:]
+        return params
+
+    def _positionalise_calls(self) -> int:
+        """f(a, y=c, x=b) -> f(a, b, c) for callees whose signature is known (clingo.ast constructors from the grammar,
+        ngo functions and classes): positional and keyword spelling of a call read the same"""
+        done = 0
+        for func in list(self.funcs.values()):
+            for call in [n for n in ast.walk(func.node) if isinstance(n, ast.Call) and n.keywords]:
+                if any(kw.arg is None for kw in call.keywords) or any(isinstance(a, ast.Starred) for a in call.args):
+                    continue
+                if isinstance(call.func, ast.Attribute) and call.func.attr == "update":
+                    continue  # AST.update(field=value): keywords are the interface
+                try:
+                    res = self.resolve_callee(func, call.func)
+                except Exception:  # pylint: disable=broad-exception-caught
+                    res = None
+                if not res:
+                    continue
+                sig = self._signature(res)
+                if not sig:
+                    continue
+                names = [kw.arg for kw in call.keywords]
+                n_pos = len(call.args)
+                if any(n not in sig for n in names) or len(set(names)) != len(names):
+                    continue
+                want = sig[n_pos : n_pos + len(names)]
+                if sorted(want) != sorted(names):  # type: ignore[type-var]
+                    continue  # a gap (a default in between): keep the keywords
+                by = {kw.arg: kw.value for kw in call.keywords}
+                call.args = list(call.args) + [by[n] for n in want]
+                call.keywords = []
+                done += 1
+        return done
 
     def new_functions(self) -> set[str]:
         """qualified names of functions that the reference tree (locals_ref.json) does not have: helpers that were extracted"""
